@@ -267,6 +267,7 @@ PROPS = {
             rapid("parse", "TestC13Parse", 15000, 150000),
             enum("enumerated", "TestC13Enumerated"),
             rapid("character-prefix", "TestC13CharacterPrefix", 1500, 8000, shards=dict(quick=1, thorough=2)),
+            rapid("repeated-names", "TestC13RepeatedNames", 8000, 40000, shards=dict(quick=1, thorough=4)),
             fuzz("parse", "FuzzC13Parse", 45),
         ],
     ),
